@@ -6,6 +6,7 @@ CONSTANTS
   MultiNsPrecheck = "interleaved"
   RollbackKinds = "all"
   SchemaListRollback = TRUE
+  DeleteClassUndo = TRUE
   RollbackScope = "repository"
 INVARIANT Atomic
 INVARIANT Completes
